@@ -3,7 +3,7 @@ import rpcflow
 import vlib
 
 SUB = "c10"
-MODULES = ["Mtv.Props.C10", "Mtv.Props.ClientImpl", "Mtv.Props.C10Life", "Mtv.Props.Arith"]
+MODULES = ["Mtv.Props.C10", "Mtv.Props.ClientImpl", "Mtv.Props.C10Life", "Mtv.Props.Arith", "Mtv.Props.ArithSend"]
 THEOREMS = [
     "Mtv.Client.genId_mult4",
     "Mtv.Client.genId_time",
